@@ -396,7 +396,7 @@ func c08run(c *ev.Ctx, r *ev.Report) {
 					}
 				}
 				return true
-			}, c.Expired)
+			}, func() bool { return c.Expired() || c.OverMemory() })
 			r.States += int64(st.Execs)
 			r.Transitions += int64(st.Transitions)
 			r.Validated += int64(st.Execs)
@@ -409,7 +409,7 @@ func c08run(c *ev.Ctx, r *ev.Report) {
 			}
 			ss.execs += st.Execs
 			if st.Stopped {
-				if c.Expired() {
+				if c.Expired() || c.OverMemory() {
 					r.Exhaustive = false
 				}
 				ss.done = true
